@@ -281,6 +281,8 @@ LEAF_ALPHABET = [
     ('cp_last_fs', lambda pid: {'t': 'cp', 'id': pid, 'k': 'last', 'act': 'FAIL_SUBTEST'}),
     ('cp_all_stop', lambda pid: {'t': 'cp', 'id': pid, 'k': 'all', 'act': 'STOP'}),
     ('returns_false', lambda pid: phase(pid, 'INVALID_FALSE')),
+    # a failed measurement on a stop_on_measurement_fail phase whose diagnoser raises: STOP (FAIL) was decided first
+    ('somf_fail_diag_raises', lambda pid: phase(pid, m=['m%d_0' % pid], sets={'m%d_0' % pid: 'f'}, d=[{'raise': 1}], somf=True)),
 ]
 
 
